@@ -456,7 +456,8 @@ def rule_validate_vector(repo, rep):
 
 def rule_no_cross_dtype_cast(repo, rep):
   R = 'DTYPE:no-cast-to-another-values-dtype'
-  rep.rule(R, 'no conversion anywhere in the package takes its target dtype '
+  rep.rule(R, 'no conversion in the metric views and validators '
+           '(base_metric.py, _util.py) takes its target dtype '
            'from a different value (dtype=<other>.dtype, '
            '.astype(<other>.dtype)): when <other> is an integer array the '
            'converted floating-point values are truncated, so an int list / '
@@ -464,6 +465,11 @@ def rule_no_cross_dtype_cast(repo, rep):
   n = 0
   bad = 0
   for f in repo.all_functions():
+    # the functions that handle the user's points / tuples: the metric views
+    # and the validators (index bookkeeping elsewhere casts integers to
+    # integer dtypes, which truncates nothing)
+    if f.module.short not in ('base_metric', '_util'):
+      continue
     for c in ast.walk(f.node):
       if not isinstance(c, ast.Call):
         continue
